@@ -114,6 +114,14 @@ CHECKS['C06'] = dict(level=MC, ref='4 C06',
     note='bounded: chain lengths 1..4 (dense representative <= 300 elements), bond dimension 1..3, 12 families (spin-1/2, spin-1, spinless, spinful fermions x symmetries), 240/4000 expression programs of '
          '10/14 steps. mps_from_tensor, zipper and compression_ (SVD-based) and MpoPBC are not covered; the zero state (empty site tensors) is not used as an operand',
     technique='TLA+ tensor reference semantics applied to dense representatives + TLC trace validation of recorded MPS expression programs')
+CHECKS['C07'] = dict(level=MC, ref='4 C07',
+    text='Reference = Fock.tla (graded Jordan-Wigner model; CAR model-checked in FockMC). TraceMpoGen.tla decides (i) generate_mpo: the MPO matrix (local basis translated to occupations via the '
+         'library number operators) equals, entry by entry in Gaussian integers, the sum over terms of amplitude x operator word applied in the given order (repeated sites, any order, custom f_map '
+         'placing sites in the fermionic order); (ii) measure_1site / measure_2site (single bonds i<j, i=j, i>j and every string pattern) / measure_nsite on integer MPS equal <bra| word |ket> on the '
+         'Fock vectors, with bra != ket in the sector the product maps to. Spin-1/2 runs with the grading "none" (bosonic: no strings); U1xU1 spinful with per-species grading.',
+    note='bounded: chain lengths 2..4 (<= 6 modes), 1-3 terms of 1-4 operators from {n, c, cp} / {nu, nd, cu, cd, cpu, cpd, Sp, Sm, nund}, 64/960 jobs x 14/20 events; Generator.mpo_from_latex, rdm and '
+         'sample probabilities not covered yet; generate_mpo output rounded to Gaussian integers at 1e-9 (SVD compression inside)',
+    technique='TLA+ Fock-space reference (Fock) + TLC trace validation of recorded generate_mpo / measure calls')
 NA = {}
 m = {"version": 1, "setup_cmd": "true",
      "hooks": {"guard": "YASTN_VERIF", "enable": "no source hooks so far: the harness wraps the public API from outside and imports yastn live from /repo (override: VERIF_REPO)",
